@@ -520,3 +520,63 @@ def _de_flip(n_bs, n_x):
 
 for _s in ((1, 1), (2, 2), (3, 3)):
     _de_flip(*_s)
+
+
+# ------------------------------------------------------------------------- align end to end: BOUNDED ONLY (never counted as proved)
+
+@contract('C16', 'align.end-to-end.sampled', [ALIGNER + '.align', ALIGNER + '._find_transformation', ALIGNER + '._calc_residual',
+                                             ALIGNER + '._de_flip_transformation'],
+          clause=CL_ALIGN + ' [whenever the initial misalignment is below 30 degrees and 3 m: the REAL align() with the real scipy least-squares '
+                            'solver, exact reference points]',
+          bounded_only=True, samples={'quick': 1500, 'thorough': 20000},
+          bounded='_find_transformation is scipy.optimize.least_squares on numpy code - outside the verifier; seeded boundary/random sampling of: '
+                  'misalignment angle 0..29.99 degrees about any axis, offset 0..3 m in any direction, 1..3 x-axis and 1..3 plane reference '
+                  'points (exact, at least 0.2 m from the origin / 0.3 m off the X axis), two base stations 1.5..4 m above the floor; '
+                  'tolerance 1e-5 m / 1e-5 on rotation-matrix entries')
+def align_end_to_end(c):
+    """native only: the body uses numpy directly (the symbolic back end never runs a bounded_only contract)"""
+    import warnings
+    import numpy as np
+    ang = c.int('angle_cdeg', 0, 2999)
+    axis = [c.int('axis%d' % i, -100, 100) for i in range(3)]
+    odir = [c.int('odir%d' % i, -100, 100) for i in range(3)]
+    omag = c.int('offset_mm', 0, 3000)
+    n_x, n_p = c.choice('n_x', [1, 2, 3]), c.choice('n_p', [1, 2, 3])
+    xs = [c.int('x%d' % i, 200, 3000) for i in range(n_x)]
+    pl = [(c.int('pa%d' % i, -3000, 3000), c.int('pb%d' % i, 300, 3000) * (1 if c.bool('pside%d' % i) else -1)) for i in range(n_p)]
+    bs = [([c.int('bs%d_r%d' % (b, i), -3000, 3000) for i in range(3)],
+           [c.int('bs%d_x' % b, -4000, 4000), c.int('bs%d_y' % b, -4000, 4000), c.int('bs%d_z' % b, 1500, 4000)]) for b in range(2)]
+    c.require('any(a != 0 for a in (axis0, axis1, axis2)) and any(a != 0 for a in (odir0, odir1, odir2))')
+    Pose = c.cls(POSE)
+    ax = np.array(axis, dtype=float)
+    ax /= np.linalg.norm(ax)
+    od = np.array(odir, dtype=float)
+    od /= np.linalg.norm(od)
+    M = Pose.from_rot_vec(R_vec=ax * np.radians(ang / 100.0), t_vec=od * (omag / 1000.0))     # real world -> solved frame
+    true_bs = {BS_IDS[b]: Pose.from_rot_vec(R_vec=np.array(r) / 1000.0, t_vec=np.array(t) / 1000.0) for b, (r, t) in enumerate(bs)}
+    origin = M.rotate_translate((0.0, 0.0, 0.0))
+    x_axis = [M.rotate_translate((x / 1000.0, 0.0, 0.0)) for x in xs]
+    xy_plane = [M.rotate_translate((a / 1000.0, b / 1000.0, 0.0)) for a, b in pl]
+    bs_poses = {i: M.rotate_translate_pose(p) for i, p in true_bs.items()}
+    with warnings.catch_warnings():
+        warnings.simplefilter('ignore')
+        c.call((c.cls(ALIGNER), 'align'), origin, x_axis, xy_plane, bs_poses)
+    c.ensure('no-exception', 'raised is None')
+    if c.get('raised') is not None:
+        return
+    aligned, T = c.get('result')
+    R = np.array(T.rot_matrix)
+    c.let('rigid_err', float(max(np.abs(R.T @ R - np.eye(3)).max(), abs(np.linalg.det(R) - 1.0))))
+    c.let('origin_err', float(np.abs(T.rotate_translate(origin)).max()))
+    xq = [T.rotate_translate(p) for p in x_axis]
+    c.let('x_axis_err', float(max(np.abs(q[1:]).max() for q in xq)))
+    c.let('x_axis_min_x', float(min(q[0] for q in xq)))
+    c.let('plane_err', float(max(abs(T.rotate_translate(p)[2]) for p in xy_plane)))
+    c.let('bs_min_z', float(min(aligned[i].translation[2] for i in true_bs)))
+    c.let('bs_err', float(max(max(np.abs(aligned[i].translation - true_bs[i].translation).max(),
+                                  np.abs(aligned[i].rot_matrix - true_bs[i].rot_matrix).max()) for i in true_bs)))
+    c.ensure('one-proper-rigid-transformation', 'rigid_err <= 1e-9')
+    c.ensure('origin-sample-maps-to-origin', 'origin_err <= 1e-5')
+    c.ensure('x-axis-samples-on-the-positive-x-axis', 'x_axis_err <= 1e-5 and x_axis_min_x > 0')
+    c.ensure('plane-samples-in-z-0', 'plane_err <= 1e-5')
+    c.ensure('base-stations-above-the-floor-at-their-true-poses', 'bs_min_z > 0 and bs_err <= 1e-5')
